@@ -419,7 +419,7 @@ inductive TestCall where
   | density (rho z : List V) (sus fail : Option Rat)
   | pressure (p : List V)
   | speed (lon lat : List V) (t : List Int) (sus fail : Rat) (hops : List V)
-  deriving Repr, Inhabited
+  deriving Repr, Inhabited, DecidableEq
 
 def TestCall.run (periodOf : Period → Int → Int) : TestCall → Res
   | .gross f s inp => grossRange f s inp
